@@ -166,7 +166,11 @@ Definition invoke (encode : bool) (k : rkind) (err_bytes : list Z) (b : body) (o
                     | OReturnsNone => s3
                     | OReturns x => match fficallback_full encode k x with
                                     | FOk w => write s3 w
-                                    | FFail partial => set_exc (write s3 partial)
+                                    | FFail partial =>
+                                        (* the failed conversion may have cleared the result: the error value is put
+                                           back (if ct_size > 0), general_invoke_callback:6280 *)
+                                        let s' := write s3 partial in
+                                        set_exc (if Nat.ltb 0 (rsize k) then write s' err_bytes else s')
                                     end
                     | ONone => s3
                     end in
